@@ -9,6 +9,8 @@ pub mod c18;
 pub mod c19;
 pub mod c11;
 pub mod c20;
+pub mod c06;
+pub mod c08;
 pub mod c21;
 pub mod c26;
 pub mod c22;
@@ -40,6 +42,8 @@ pub fn for_property(p: &str) -> Vec<Suite> {
         "C19" => c19::suites(),
         "C11" => c11::suites(),
         "C20" => c20::suites(),
+        "C06" => c06::suites(),
+        "C08" => c08::suites(),
         "C21" => c21::suites(),
         "C26" => c26::suites(),
         "C12" => c12::suites_c12(),
